@@ -18,6 +18,26 @@ static const char *NAMES[] = {"www.example.org", "a.b", "mail.some-other-domain.
 	"very-long-label-01234567890123456789012345678901234567890123456.and.another-label-with-some-length.example.info", "UPPER.Case.ExAmPlE.ORG", "1.0.0.127.in-addr.arpa"};
 static const uint16_t TYPES[] = {1, 2, 5, 15, 16, 28, 33, 255, 10, 65399, 6};
 
+// appends additional TXT records (owner: root) to a well-formed reply until it has about `want` bytes; keeps it well-formed
+static void pad_reply(Bytes &reply, size_t want)
+{
+	if (reply.size() < 12) return;
+	int added = 0;
+	while (reply.size() + 13 <= want && reply.size() < 65000 && added < 250) {
+		size_t room = std::min<size_t>(want - reply.size() - 11, 60000);
+		size_t rd = 0; Bytes rdata;
+		while (rd + 2 <= room) { size_t l = std::min<size_t>(255, room - rd - 1); rdata.push_back((uint8_t)l); for (size_t i = 0; i < l; i++) rdata.push_back((uint8_t)('a' + (i + added) % 26)); rd += l + 1; }
+		if (rdata.empty()) { rdata.push_back(0); }
+		reply.push_back(0); reply.push_back(0); reply.push_back(16); reply.push_back(0); reply.push_back(1);
+		reply.push_back(0); reply.push_back(0); reply.push_back(0); reply.push_back(60);
+		reply.push_back((uint8_t)(rdata.size() >> 8)); reply.push_back((uint8_t)rdata.size());
+		reply.insert(reply.end(), rdata.begin(), rdata.end());
+		added++;
+	}
+	int ar = (reply[10] << 8 | reply[11]) + added;
+	reply[10] = (uint8_t)(ar >> 8); reply[11] = (uint8_t)ar;
+}
+
 static CaseResult system_case(Tape &t)
 {
 	CaseResult r;
@@ -52,7 +72,7 @@ static CaseResult system_case(Tape &t)
 	int nids = t.range(3, 20);
 	int nact = t.range(5, 80);
 	uint32_t wq = t.chance(1, 2) ? 12 : 5;   // half of the cases let queries pile up (more than 16 outstanding)
-	int n_unmatched = 0, n_reuse = 0, n_over16 = 0, n_replies = 0, n_relayed = 0, outstanding = 0;
+	int n_unmatched = 0, n_reuse = 0, n_over16 = 0, n_replies = 0, n_relayed = 0, outstanding = 0, n_big = 0;
 	std::string trace;
 	auto note = [&](const std::string &x) { if (trace.size() < 1500) trace += "\n  " + x; if (getenv("VERIF_TRACE")) fprintf(stderr, "%.6f %s\n", sim::W.now / 1e6, x.c_str()); };
 	for (int a = 0; a < nact && !t.exhausted(); a++) {
@@ -94,6 +114,8 @@ static CaseResult system_case(Tape &t)
 				id = f.id;
 				reply = refdns::build_error_reply(f.dgram, (int)t.below(6));
 				if (reply.size() > 3) reply[2] = (uint8_t)(reply[2] | (t.below(2) << 2));   // vary a flag bit (AA) so replies differ
+				// replies of any size a UDP datagram can have (well-formed: additional TXT records are appended until the size is reached)
+				if (t.chance(1, 5)) { static const size_t SZ[] = {512, 513, 1232, 4095, 4096, 4097, 9000, 32768, 65000}; size_t want = t.chance(1, 2) ? SZ[t.below(9)] : 12 + t.below(20000); pad_reply(reply, want); n_big++; }
 			}
 			std::vector<size_t> before(nreq); for (int k = 0; k < nreq; k++) before[k] = inbox[k].size();
 			sim::Datagram dg; dg.src = resolver; dg.dst = at_resolver.empty() ? sim::Addr::v4(192, 0, 2, 1, 40000) : at_resolver.back().first; dg.data = reply;
@@ -137,6 +159,7 @@ static CaseResult system_case(Tape &t)
 	if (n_over16) r.cls(">16-outstanding");
 	if (n_reuse) r.cls("id-reuse");
 	if (n_unmatched) r.cls("unmatched-reply");
+	if (n_big) r.cls("reply-padded-to-a-large-size");
 	return r;
 }
 
